@@ -322,6 +322,20 @@ def _sweep_block_specs():
     return out
 
 
+ALL_FILLS = ["random", "ff", "text", "adversarial", "small-int", "float-special", "negative-int", "wide", "cstring", "partial:small-int", "partial:random", "partial:ff",
+             "partial:wide", "partial:cstring"]
+
+
+def enum_fill_matrix(tier):
+    """every filler kind x a few seeds x every block type (fixed blocks with two labelled items, non-ASCII text) x both sources: what the
+    random draw of (type, filler) pairs covers only on average is covered for certain"""
+    for spec in _sweep_block_specs():
+        for kind in ALL_FILLS:
+            for seed in ((1, 2, 3, 4, 5, 6) if kind.endswith("cstring") else (1, 2)):
+                for source in ("ref", "lib"):
+                    yield {"spec": spec, "hints": None, "source": source, "fill": [kind, seed]}
+
+
 def enum_sweep(tier):
     top = 4096 if tier == "quick" else 65536
     step = 512
@@ -387,6 +401,9 @@ SUBS = [
         rule="one don't-care word at a time swept through a whole range: the table entry's pad word through all of 0..65535 plus 2^k-1, 2^k, 2^k+1 and other "
              "numbers with a meaning elsewhere (code pages), with non-ASCII text in the entry; each reserved word of each block type's header through 0..4095 (quick) / "
              "0..65535 (thorough) plus the specials, with non-ASCII labels; finite, enumerated (one case = 512 values)"),
+    Sub("filler-matrix", run_blocks, kind="enum", enumerate=enum_fill_matrix, shards=(8, 16),
+        rule="nine block types (fixed blocks, two labelled items, non-ASCII text) x 14 filler kinds x 2 (6 for the terminated-text filler) seeds x source {library-written, "
+             "reference-written}; finite, enumerated", nontrivial_required=False),
     Sub("blocks", run_blocks, strategy=blocks_strategy, budget=(1800, 40000), shards=(4, 16),
         rule="all nine block types, library-written and reference-encoded; every don't-care byte overwritten"),
     Sub("capture-blocks", run_capture, strategy=capture_strategy, budget=(24, 400), shards=(4, 16),
